@@ -123,8 +123,12 @@ def regenerate(log):
             os.remove(f)
         except OSError:
             pass
-    rc, out = sh([os.path.join(BUILD, "gotolean"), "-repo", REPO, "-spec",
-                  os.path.join(VERIF, "harness", "gotolean", "spec.json"), "-out", gen],
+    mods = []
+    for f in sorted(glob.glob(os.path.join(VERIF, "harness", "gotolean", "spec", "*.json"))):
+        mods.extend(json.load(open(f)))
+    spec = os.path.join(BUILD, "gotolean-spec.json")
+    json.dump(mods, open(spec, "w"))
+    rc, out = sh([os.path.join(BUILD, "gotolean"), "-repo", REPO, "-spec", spec, "-out", gen],
                  env=go_env(), timeout=600)
     log.append(("gotolean", rc, out))
     failures = []
@@ -179,6 +183,7 @@ def build_testbins(log, race=False):
 def prepare(log, force=False):
     """Bring generated Lean and harness binaries up to date with /repo's working tree."""
     os.makedirs(BUILD, exist_ok=True)
+    sh([sys.executable, os.path.join(VERIF, "lib", "genregistry.py")])
     st = load_stamp()
     rh, hh = repo_hash(), harness_hash()
     info = {"repo_hash": rh, "regenerated": False}
